@@ -891,6 +891,30 @@ func c08Tasks(tier string) []mc.Task {
 			}
 		}
 	}
+	// gamma-distributed rates on pairs that are far from saturation: every multiset of 6 (thorough 7) pair
+	// columns over {A/A, C/C, G/G, T/T, A/G, C/T, A/C, G/T} (unequal purine / pyrimidine frequencies, few
+	// differences), five corrected models, shape 0.5 and 2
+	for _, model := range []string{"jc", "k2p", "f81", "f84", "tn93"} {
+		for _, a := range []float64{0.5, 2} {
+			for sh := 0; sh < 6; sh++ {
+				model, a, sh := model, a, sh
+				ts = append(ts, mc.Task{Name: fmt.Sprintf("relgamma#%s/alpha%v/shard%d", model, a, sh), Run: func(c *mc.Ctx) {
+					types := [][2]byte{{'A', 'A'}, {'C', 'C'}, {'G', 'G'}, {'T', 'T'}, {'A', 'G'}, {'C', 'T'}, {'A', 'C'}, {'G', 'T'}}
+					L := 6
+					if thorough {
+						L = 7
+					}
+					i := -1
+					c07Multisets(types, L, func(seqs []string) bool {
+						if i++; i%6 == sh {
+							c08Rel(c, c08Case{Kind: "rel", Seqs: seqs, Model: model, Alpha: a})
+						}
+						return !c.Expired()
+					})
+				}})
+			}
+		}
+	}
 	// ambiguity codes: purine / pyrimidine codes R and Y next to A, G, C (strand symmetry of the
 	// transition/transversion classification, sharing of codes in base frequencies)
 	for _, sh := range []shape{{2, 1}, {2, 2}, {2, 3}} {
@@ -996,7 +1020,7 @@ func init() {
 		Level: "model_checking",
 		Rule: "schedule part: stateless DFS over all interleavings of the real dna.DistMatrix goroutines (main, producer, cpus workers; scheduling points at every go/channel/mutex/WaitGroup operation) with iterative preemption bounds 0,1,2 (quick) / 0..3 (thorough), for 3 sequences x cpus 1..3 x {k2p (with a +Inf pair), jc}, 4 sequences with overlapping ranges, 15 sequences (105 pairs > channel capacity); " +
 			"function-entry part: 3 sequences, cpus 2 (3 thorough), 5 models, every function entry of goalign (functions of >= 4 statements) an additional scheduling point, preemption bound 1; " +
-			"fault part: the same exploration with a DistModel that fails at each Distance call / each Sequence call in turn, and with one that fails at every Distance call from the k-th on (k=0,1; cpus 2,3; preemption bound 2/3); relational part: all alignments of shape 2x1,2x2,3x1,2x3,3x2 (+2x4,3x3 thorough; 3x3 over {A,C,T,-} for pdist and rawdist) over {A,C,G,T,-} x 7 models x rm-gaps x gap-count modes under every column permutation, replication (concat, weights) k=2,3, unit weights, reverse complement, every row permutation, cpus 1,2,3; the shapes of <= 6 cells also with gamma-distributed rates (alpha 0.5), with ONE model value serving all calls of a case (as build distboot does) and, for 2x1, 2x2, 3x1, 3x2, in range mode with both ranges = all rows; thread part (GOMAXPROCS following the thread count, as --threads does): all 2x4 (thorough 2x5) alignments over {A,C,B,V} x {f81,tn93,pdist} (thorough also f84, jc), with and without fractional weights, threads = GOMAXPROCS = 1,2,3,4 must give the same bits. " +
+			"fault part: the same exploration with a DistModel that fails at each Distance call / each Sequence call in turn, and with one that fails at every Distance call from the k-th on (k=0,1; cpus 2,3; preemption bound 2/3); relational part: all alignments of shape 2x1,2x2,3x1,2x3,3x2 (+2x4,3x3 thorough; 3x3 over {A,C,T,-} for pdist and rawdist) over {A,C,G,T,-} x 7 models x rm-gaps x gap-count modes under every column permutation, replication (concat, weights) k=2,3, unit weights, reverse complement, every row permutation, cpus 1,2,3; the shapes of <= 6 cells also with gamma-distributed rates (alpha 0.5), every multiset of 6 (thorough 7) pair columns over {A/A,C/C,G/G,T/T,A/G,C/T,A/C,G/T} x 5 corrected models x alpha {0.5, 2} (pairs far from saturation, unequal purine / pyrimidine frequencies), the small shapes also with ONE model value serving all calls of a case (as build distboot does) and, for 2x1, 2x2, 3x1, 3x2, in range mode with both ranges = all rows; thread part (GOMAXPROCS following the thread count, as --threads does): all 2x4 (thorough 2x5) alignments over {A,C,B,V} x {f81,tn93,pdist} (thorough also f84, jc), with and without fractional weights, threads = GOMAXPROCS = 1,2,3,4 must give the same bits. " +
 			"distinct_nontrivial counts distinct (case, schedule) executions of the schedule/fault parts plus relational cases whose matrix has a non-zero entry. states/transitions are nodes/edges of the schedule choice trees.",
 		Assumptions: []string{
 			"sequential consistency (Go programs without data races are SC; races are what the vector-clock check reports)",
